@@ -140,6 +140,19 @@ MATERIALISERS = ("list", "tuple", "set", "frozenset", "sorted", "ordered_set", "
 
 
 def materialises(value, name, nested) -> bool:
+    if isinstance(value, ast.IfExp):
+        # `<default> if name is None else set(name)`: the test may only look at None-ness / length, each arm either ignores the parameter or materialises it
+        uses = [n for n in ast.walk(value.test) if isinstance(n, ast.Name) and n.id == name]
+        if not all(isinstance(p, ast.Compare) and len(p.ops) == 1 and isinstance(p.ops[0], (ast.Is, ast.IsNot)) and isinstance(p.comparators[0], ast.Constant) and p.comparators[0].value is None
+                   and isinstance(p.left, ast.Name) and p.left.id == name for p in [value.test]) and uses:
+            return False
+        arms = [value.body, value.orelse]
+        ok = True
+        for a in arms:
+            reads = any(isinstance(n, ast.Name) and n.id == name for n in ast.walk(a))
+            if reads and not materialises(a, name, nested):
+                ok = False
+        return ok
     v = value
     depth = 0
     while isinstance(v, ast.Call) and ast.unparse(v.func) in MATERIALISERS and v.args and depth < 4:
